@@ -2,6 +2,8 @@
 package main
 
 import (
+	"time"
+
 	"verif/harness/cmd/c01/eng"
 	"verif/harness/h"
 )
@@ -10,5 +12,7 @@ func main() {
 	h.Main(h.Harness{
 		Gen:     func(r *h.Rand, tier string, emit func([]string)) { eng.Gen(r, tier, "c01", emit) },
 		NewCase: func() h.CaseRunner { return eng.New() },
+		// generous: the machine may be heavily loaded; a real hang still ends the case
+		OpTimeout: 120 * time.Second,
 	})
 }
